@@ -65,6 +65,9 @@ history = {
  'C01o':'frozen','C02o':'frozen','C03o':'frozen-other','C04o':'frozen','C05o':'frozen','C06o':'frozen','C07o':'frozen','C08o':'frozen',
  'C09o':'frozen','C10o':'frozen','C11o':'frozen','C12o':'frozen','C13o':'frozen','C14o':'frozen-other','C15o':'frozen','C16o':'frozen-other',
  'C17o':'frozen-other','C18o':'after','C19o':'frozen','C20o':'frozen',
+ # round p (ten properties, short): rules frozen at tag rules-frozen-for-round-p-seeds; first run in refs/round_p_first_run.txt
+ 'C01p':'frozen-other','C03p':'frozen','C06p':'frozen','C09p':'after','C10p':'frozen','C13p':'frozen','C14p':'frozen','C16p':'frozen',
+ 'C18p':'frozen-other','C20p':'frozen',
 }
 seeds = sys.argv[1:] or sorted(d for d in os.listdir('seeded') if os.path.isdir('seeded/'+d))
 out = subprocess.run(['tools/run_seeds.sh'] + seeds, capture_output=True, text=True).stdout
